@@ -20,3 +20,5 @@ open LoomVerif.C15
 #print axioms large_bound_never_cuts
 #print axioms large_bound_never_cuts_path
 #print axioms Ex.reach_q1
+#print axioms Ex.seedA_ok
+#print axioms Ex.seedB_ok
